@@ -101,6 +101,8 @@ class CallMixin:
         raise E.Unsupported(f"call of {fn!r}")
 
     def call_any(self, fn, args, kwargs, node, frame):
+        if self.opt("opaque_any_methods"):
+            return self.call_callback(VCallback(f"opaque:{fn.t}"[:60], {"raises": ("Exception",), "returns": "any"}), args, kwargs, node, frame)
         raise E.Unsupported("call of opaque value")
 
     # ------------------------------------------------------------ repo functions
@@ -203,7 +205,8 @@ class CallMixin:
             if m is not None:
                 return self.call_function(VFunc(m[0], None, m[1], m[1].mod.relpath, name), [recv] + list(args), kwargs)
         if isinstance(recv, VCallback):
-            sp = self.cb_spec(f"{recv.name}.{name}", (recv.spec or {}).get(name) if isinstance(recv.spec, dict) else None)
+            sp0 = recv.spec if isinstance(recv.spec, dict) else {}
+            sp = self.cb_spec(f"{recv.name}.{name}", sp0.get(name) or (sp0 if sp0.get("inherit") else None))
             return self.call_callback(VCallback(f"{recv.name}.{name}", sp), args, kwargs, node, frame)
         from .builtins_ import call_builtin_method
         return call_builtin_method(self, recv, name, args, kwargs, node, frame)
